@@ -405,6 +405,78 @@ func evalSkip(c SkipCase) (problems []string) {
 	return
 }
 
+// skippableAttr: the kinds a table's checks and attributes are changed by. The project file has no
+// names for them; a program hands them to the differ with schema.DiffSkipChanges like any other kind.
+var skippableAttr = []schema.Change{&schema.AddCheck{}, &schema.DropCheck{}, &schema.ModifyCheck{}, &schema.AddAttr{}, &schema.ModifyAttr{}}
+
+// pairAttr builds a pair of schemas producing a check added, dropped and modified and (where the
+// dialect has one) a table attribute added / modified, next to a column change that stays.
+func pairAttr(d *dfu.Dialect) (*schema.Schema, *schema.Schema) {
+	from, to := dfu.Base(d), dfu.Base(d)
+	apply := map[string]bool{"add_check": true, "modify_check": true, "table_comment_modified": true, "strict_added": true, "add_column": true}
+	for _, e := range dfu.Edits(d) {
+		if apply[e.Name] {
+			e.Apply(to)
+		}
+	}
+	dfu.T(from, "u").AddChecks(schema.NewCheck().SetName("ck_u_gone").SetExpr("id > 0"))
+	return from, to
+}
+
+func evalSkipAttr(c SkipCase) (problems []string) {
+	bad := func(f string, a ...any) { problems = append(problems, fmt.Sprintf(f, a...)) }
+	defer func() {
+		if p := recover(); p != nil {
+			bad("panic: %v", p)
+		}
+	}()
+	var d *dfu.Dialect
+	for _, x := range dfu.Dialects {
+		if x.Name == c.Dialect {
+			d = x
+		}
+	}
+	from, to := pairAttr(d)
+	all, err := d.Diff.SchemaDiff(from, to, schema.DiffNormalized())
+	if err != nil {
+		return []string{"unskipped diff: " + err.Error()}
+	}
+	var skip []schema.Change
+	names := map[string]bool{}
+	for i, k := range skippableAttr {
+		if c.Mask&(1<<uint(i)) != 0 {
+			skip = append(skip, k)
+			names[kindName(k)] = true
+		}
+	}
+	from2, to2 := pairAttr(d)
+	got, err := d.Diff.SchemaDiff(from2, to2, schema.DiffNormalized(), schema.DiffSkipChanges(skip...))
+	if err != nil {
+		return []string{"diff with skip: " + err.Error()}
+	}
+	var want []string
+	for _, f := range dfu.Flatten(all) {
+		keep := true
+		for _, seg := range strings.Split(f, "/") {
+			k := seg
+			if i := strings.IndexAny(k, "(["); i >= 0 {
+				k = k[:i]
+			}
+			if names[k] {
+				keep = false
+			}
+		}
+		if keep {
+			want = append(want, f)
+		}
+	}
+	g := dfu.Flatten(got)
+	if !reflect.DeepEqual(g, want) && !(len(g) == 0 && len(want) == 0) {
+		bad("skip=%v: change set has %v more and %v less than the unskipped diff filtered (%v)", keys(names), minus(g, want), minus(want, g), dfu.Flatten(all))
+	}
+	return
+}
+
 func keys(m map[string]bool) []string {
 	var out []string
 	for k := range m {
@@ -432,7 +504,7 @@ func minus(a, b []string) []string {
 
 func Run(r *report.Run) {
 	ctx := context.Background()
-	r.Rule = "(a) exclude: a SQLite database with colliding names (4 tables, a view, columns/indexes/foreign keys/checks) on a real engine x every pattern table[.child][selector] from 10 table globs x 9 child globs (one of them malformed: it must be reported as an error) x 9 type selectors (quick: every single pattern; thorough: every unordered pair), through InspectSchema and InspectRealm, compared element by element with a reference of the pattern semantics built on path.Match; (b) skip: per dialect a change set containing every skippable kind at every nesting level x all 2^15 subsets of the policy kinds {Add,Drop,Modify} x {Schema,Table,Column,Index,ForeignKey}: the change tree must equal the unskipped diff with the skipped kinds filtered out recursively, also when the policy is handed over as several options; (c) end to end: real `atlas schema apply --auto-approve` on a SQLite file whose current and desired states disagree on 3 tables and 3 columns (one per way a plan can touch a resource) x every set of <=2 of 9 exclude patterns x {--exclude flags, env exclude} x {no dev database, dev database} x desired state {HCL file, database URL}, and all 15 non-empty subsets of diff.skip {add_table, drop_table, add_column, drop_column} in a project file (in the env's diff block, or in the project-level diff block inherited by an env without / with a diff block of its own): a resource is left exactly as it was iff a pattern matches it / its change kind is skipped, everything else reaches the desired state, rows survive, and a second apply is a no-op; the same with an index and a foreign key over the excluded column present on both sides (nothing may be planned for them); (d) the policy handed to the versioned-migration planner (migrate.NewPlanner with PlanWithDiffOptions, as `migrate diff` builds it) on a real in-memory SQLite dev database that replays a directory: scope {whole database, connected schema} x all 32 subsets of {drop table, drop column, drop index, add table, add index}: a kind is in the plan iff it is not switched off; non-trivial = pattern set excluding >=1 element, or a non-empty skip subset; distinct by construction"
+	r.Rule = "(a) exclude: a SQLite database with colliding names (4 tables, a view, columns/indexes/foreign keys/checks) on a real engine x every pattern table[.child][selector] from 10 table globs x 9 child globs (one of them malformed: it must be reported as an error) x 9 type selectors (quick: every single pattern; thorough: every unordered pair), through InspectSchema and InspectRealm, compared element by element with a reference of the pattern semantics built on path.Match; (b) skip: per dialect a change set containing every skippable kind at every nesting level x all 2^15 subsets of the policy kinds {Add,Drop,Modify} x {Schema,Table,Column,Index,ForeignKey}: the change tree must equal the unskipped diff with the skipped kinds filtered out recursively, also when the policy is handed over as several options; and all 32 subsets of the kinds a table's checks and attributes change by {AddCheck, DropCheck, ModifyCheck, AddAttr, ModifyAttr} (no names in the project file; handed over with DiffSkipChanges); (c) end to end: real `atlas schema apply --auto-approve` on a SQLite file whose current and desired states disagree on 3 tables and 3 columns (one per way a plan can touch a resource) x every set of <=2 of 9 exclude patterns x {--exclude flags, env exclude} x {no dev database, dev database} x desired state {HCL file, database URL}, and all 15 non-empty subsets of diff.skip {add_table, drop_table, add_column, drop_column} in a project file (in the env's diff block, or in the project-level diff block inherited by an env without / with a diff block of its own): a resource is left exactly as it was iff a pattern matches it / its change kind is skipped, everything else reaches the desired state, rows survive, and a second apply is a no-op; the same with an index and a foreign key over the excluded column present on both sides (nothing may be planned for them); (d) the policy handed to the versioned-migration planner (migrate.NewPlanner with PlanWithDiffOptions, as `migrate diff` builds it) on a real in-memory SQLite dev database that replays a directory: scope {whole database, connected schema} x all 32 subsets of {drop table, drop column, drop index, add table, add index}: a kind is in the plan iff it is not switched off; non-trivial = pattern set excluding >=1 element, or a non-empty skip subset; distinct by construction"
 	r.Assumptions = []string{
 		"indexes/foreign keys built on an excluded column, and foreign keys pointing at an excluded table, are unspecified by the documentation: not judged",
 		"the CLI slice uses one fixed pair of schemas in which every way a plan can touch a resource occurs once",
@@ -478,6 +550,16 @@ func Run(r *report.Run) {
 			}
 		}
 	}
+	for _, d := range dfu.Dialects {
+		for mask := 0; mask < 1<<uint(len(skippableAttr)); mask++ {
+			c := SkipCase{d.Name, mask}
+			r.CaseDistinct(mask != 0)
+			n++
+			if problems := evalSkipAttr(c); len(problems) > 0 {
+				r.Violate("", fmt.Sprintf("%s (check / attribute kinds): %s", d.Name, strings.Join(problems, " | ")), map[string]any{"skip_attr": c})
+			}
+		}
+	}
 	r.Set("skip_subsets_checked", n)
 	// (d) the policy handed to the versioned-migration planner
 	for _, c := range plannerCases() {
@@ -494,10 +576,11 @@ func Run(r *report.Run) {
 func Replay(r *report.Run, raw json.RawMessage) {
 	var v struct {
 		Case struct {
-			Exclude *ExCase
-			Skip    *SkipCase
-			CLI     *CLICase     `json:"cli"`
-			Planner *PlannerCase `json:"planner"`
+			Exclude  *ExCase
+			Skip     *SkipCase
+			CLI      *CLICase     `json:"cli"`
+			Planner  *PlannerCase `json:"planner"`
+			SkipAttr *SkipCase    `json:"skip_attr"`
 		}
 	}
 	if err := json.Unmarshal(raw, &v); err != nil {
@@ -520,6 +603,10 @@ func Replay(r *report.Run, raw json.RawMessage) {
 		}
 	case v.Case.Skip != nil:
 		if p := evalSkip(*v.Case.Skip); len(p) > 0 {
+			r.Violate("", strings.Join(p, " | "), v.Case)
+		}
+	case v.Case.SkipAttr != nil:
+		if p := evalSkipAttr(*v.Case.SkipAttr); len(p) > 0 {
 			r.Violate("", strings.Join(p, " | "), v.Case)
 		}
 	case v.Case.Planner != nil:
